@@ -98,7 +98,10 @@ def _alt_op(x):
     return pool[(pool.index(op) + 1) % len(pool)]
 
 
-def apply_edit(draw, model):
+STRUCTURAL = ("add-feature", "remove-leaf", "card", "move", "split", "merge", "add-ctc", "remove-ctc")
+
+
+def apply_edit(draw, model, only=None):
     """Returns (label, edited_model) - a single-point structural edit, constructed (never filtered)."""
     m = copy.deepcopy(model)
     feats = _feats(m)
@@ -118,6 +121,8 @@ def apply_edit(draw, model):
         options += ["remove-ctc", "operand"]
         if any(c["ast"][0] not in logic.LEAF for c in m["ctcs"]):
             options.append("operator")
+    if only is not None:
+        options = [o for o in options if o in only] or ["add-feature"]
     kind = draw(st.sampled_from(sorted(set(options))))
     if kind == "rename":
         f = draw(st.sampled_from(feats))
@@ -200,7 +205,7 @@ def apply_edit(draw, model):
 ANY_STAR = S.Profile(S.ident_or_dict_names(), single=("mandatory", "optional", "card1", "star1"),
                      group=("alternative", "or", "mutex", "card", "star"), layout="free",
                      ftypes=("BOOLEAN", "BOOLEAN", "INTEGER", "REAL", "STRING"), fcards=True, ctc_max=5,
-                     ctc_expr=c03._any_ctc)
+                     ctc_expr=c03._any_ctc, wide=True, simple_ops=logic.LOGICAL)
 
 
 @st.composite
